@@ -214,7 +214,10 @@ fn checked_deposit(m: &mut Mkt, a: T, b: T, c: &LegCtx, mon: &mut Monitor) -> Op
 
     // (c) — first deposit into an empty pool.
     if supply0.is_zero() {
-        let empty = s0.primary.long_amount == 0 && s0.primary.short_amount == 0;
+        // "Empty pool": no liquidity and (where the reference valuation is defined) zero pool value.
+        let empty = s0.primary.long_amount == 0
+            && s0.primary.short_amount == 0
+            && ref_pool_value(&s0, &p, PnlFactorKind::MaxAfterDeposit, true).map(|v| v.value.is_zero()).unwrap_or(true);
         if empty {
             cnt(mon, "first_deposit_seen");
             let divisor = bi(s0.value_to_amount_divisor);
